@@ -8,7 +8,10 @@ import (
 	"encoding/hex"
 	"encoding/json"
 	"fmt"
+	"io"
+	"os"
 	"reflect"
+	"strings"
 	"testing"
 
 	"github.com/tormoder/fit"
@@ -152,6 +155,49 @@ func check(rec *hx.Recorder, c chainCase) (string, bool) {
 		}
 		if c.Corrupt >= 0 {
 			return
+		}
+		// the same through the concrete reader types programs use (seekable
+		// readers that are not at offset 0, files, pipes, buffered readers):
+		// what a reader can do besides Read must not matter. One kind per
+		// case, chosen by the case's content.
+		kinds := gen.ReaderKinds(os.Getenv("VERIF_BUILD"))
+		kind := kinds[(len(first)+c.Sentinel+len(files))%len(kinds)]
+		type call struct {
+			name string
+			want int
+			run  func(r io.Reader) (string, error)
+		}
+		calls := []call{
+			{"Decode", frame, func(r io.Reader) (string, error) { f, err := fit.Decode(r); return digest(f), err }},
+			{"CheckIntegrity", frame, func(r io.Reader) (string, error) { return "", fit.CheckIntegrity(r, false) }},
+			{"CheckIntegrity(headerOnly)", int(first[0]), func(r io.Reader) (string, error) { return "", fit.CheckIntegrity(r, true) }},
+			{"DecodeHeader", int(first[0]), func(r io.Reader) (string, error) { h, err := fit.DecodeHeader(r); return fmt.Sprint(h), err }},
+		}
+		for _, cl := range calls {
+			r, consumed, done, err := kind.Open(withSentinel)
+			if err != nil {
+				rec.Note("reader kind " + kind.Name + ": " + err.Error())
+				break
+			}
+			got, err := cl.run(r)
+			n := consumed()
+			done()
+			if err != nil {
+				msg = fmt.Sprintf("%s fails on a valid file read through a %s: %v", cl.name, kind.Name, err)
+				return
+			}
+			if n >= 0 && n != cl.want && !strings.Contains(kind.Name, "bufio") {
+				msg = fmt.Sprintf("%s through a %s consumed %d bytes, expected %d", cl.name, kind.Name, n, cl.want)
+				return
+			}
+			if cl.name == "Decode" && got != digest(refFile) {
+				msg = fmt.Sprintf("Decode through a %s gives a different File than through a plain reader", kind.Name)
+				return
+			}
+			if cl.name == "DecodeHeader" && got != fmt.Sprint(refFile.Header) {
+				msg = fmt.Sprintf("DecodeHeader through a %s returned %s, Decode reports %v", kind.Name, got, refFile.Header)
+				return
+			}
 		}
 		// DecodeChained over the concatenation (no sentinel: trailing bytes
 		// would be another, broken, file)
